@@ -50,6 +50,9 @@ type Opts struct {
 	// variable read through the harness's source overlay), so that imports over short
 	// chains take several batches with events between them.
 	Batch uint64 `json:"batch"`
+	// Restart adds one orderly restart ("z") to alphabets that have none (C09: the pending set
+	// is persistent, the handler's index of it is not).
+	Restart bool `json:"restart"`
 	// Games adds the C10 oracle (staking/binding histories, withdrawal sequences).
 	Games bool `json:"games"`
 }
@@ -112,7 +115,7 @@ func (m *Model) Alphabet() []string {
 	if m.O.NewAddr {
 		a = append(a, "n.a", "n.w")
 	}
-	if m.O.Import || m.O.Remove {
+	if m.O.Import || m.O.Remove || m.O.Restart {
 		a = append(a, "z")
 	}
 	if m.O.Relay {
